@@ -521,11 +521,8 @@ Fixpoint dedup_vars (seen : list rvar) (l : list rvar) : list rvar :=
     dedup_vars (put seen) t
   end.
 
-Definition impl_read (n : Z) (ls : list pline) : option rfile :=
-  let s0 := St [] [] [] 0 None [(s2z "fmt", s2z "1001"); (s2z "n_header_lines", zstr n)] None in
-  match run_header n 2 (Z.to_nat (n - 1)) ls s0 with
-  | None => None
-  | Some (s, rest) =>
+(* everything after the header loop: code/scale lists, genfromtxt, reshape, variables, time conversion *)
+Definition read_data (n : Z) (s : st) (rest : list pline) : option rfile :=
     match s_vars s with
     | None => None                                      (* NameError: variables never assigned *)
     | Some names =>
@@ -555,7 +552,14 @@ Definition impl_read (n : Z) (ls : list pline) : option rfile :=
               end
         end
       end
-    end
+    end.
+
+Definition s0_of (n : Z) : st :=
+  St [] [] [] 0 None [(s2z "fmt", s2z "1001"); (s2z "n_header_lines", zstr n)] None.
+Definition impl_read (n : Z) (ls : list pline) : option rfile :=
+  match run_header n 2 (Z.to_nat (n - 1)) ls (s0_of n) with
+  | None => None
+  | Some (s, rest) => read_data n s rest
   end.
 
 Definition impl_roundtrip (f : file) : option rfile :=
